@@ -156,29 +156,37 @@ func baseClass(s string) string {
 
 func init() {
 	checks["C30"] = eng.Check{
-		Rule:        "memory-view address argument: EVERY string of length 1..4 over {0,1,7,8,9,a,f,g,x,X,b,B,-,+,_} plus boundary literals around 2^64 in every base, against an independent integer-literal parser (decimal, 0x/0X, 0b/0B, 0-prefixed octal; fits 64 bits); emulator prompt value: the same strings (plus 'o' forms, empty line) x widths {1,2,4,8} typed through the real line reader: typed integer modulo 2^(8w) as a w-byte constant, errors for empty input, underscores, malformed numbers; crashes are violations. Non-trivial = input that denotes a number.",
+		Rule:        "memory-view address argument: EVERY string of length 1..4 over {0,1,7,9,a,f,g,x,X,b,B,-,+,_} (thorough: length 1..6 over the same characters plus o and O) plus boundary literals around 2^64 in every base, against an independent integer-literal parser (decimal, 0x/0X, 0b/0B, 0-prefixed octal; fits 64 bits); emulator prompt value: the same strings (plus 'o' forms, empty line) x widths {1,2,4,8} typed through the real line reader: typed integer modulo 2^(8w) as a w-byte constant, errors for empty input, underscores, malformed numbers; crashes are violations. Non-trivial = input that denotes a number.",
 		Assumptions: []string{"'0', '00..' (zero in a 0-prefixed form) may be accepted as 0 or rejected, and a leading '+' may be accepted or rejected: the property text does not decide these"},
 		Run: func(r *eng.Run) {
 			alpha := []byte("0179afgxXbB-+_")
+			maxLen := 4
+			if !r.Quick() {
+				alpha = []byte("0179afgxXbBoO-+_")
+				maxLen = 6
+			}
 			var strs []string
+			process := func(s string) {}
 			var rec func(s []byte)
 			rec = func(s []byte) {
 				if len(s) > 0 {
-					strs = append(strs, string(s))
+					if len(s) <= 4 {
+						strs = append(strs, string(s))
+					} else {
+						process(string(s)) // longer strings are streamed
+					}
 				}
-				if len(s) < 4 {
+				if len(s) < maxLen {
 					for _, ch := range alpha {
 						rec(append(s, ch))
 					}
 				}
 			}
-			rec(nil)
 			extra := []string{"18446744073709551615", "18446744073709551616", "0xffffffffffffffff", "0x10000000000000000", "0XFFFFFFFFFFFFFFFF",
 				"01777777777777777777777", "02000000000000000000000", "0b" + strings.Repeat("1", 64), "0B" + strings.Repeat("1", 65), "0b101", "0B101", "0b0", "017", "0x2000", "0X2000",
 				"8", "08", "0x", "0b", "x", "0", "00", "000", "-0", "-1", "-0x80", "-0b1", "-017", "0o17", "0O17", "0o8", "-0o7", " 5", "5 ", "1e3", "0x1p3", "١٢", ""}
-			strs = append(strs, extra...)
-			r.Note("strings=%d", len(strs))
-			for _, s := range strs {
+			r.Note("alphabet=%q max length=%d", alpha, maxLen)
+			process = func(s string) {
 				if s != "" {
 					f := c30Run(c30Case{Fn: "addr", S: s})
 					r.Eval(1)
@@ -201,6 +209,11 @@ func init() {
 						r.Outcome(f.Sig)
 					}
 				}
+			}
+			rec(nil)
+			strs = append(strs, extra...)
+			for _, s := range strs {
+				process(s)
 			}
 			// a few 'o' strings systematically
 			for _, s := range []string{"0o", "0o0", "0o7", "0o17", "0o8", "-0o17", "0O7", "0oa"} {
